@@ -2,7 +2,8 @@
    responses one session received in a wire-level history (harness/hist.go), with probe results.
    Events (`;`-separated): RESET<n> (SELECT/EXAMINE answered n EXISTS, or mailbox closed: n=0),
    E<n> R<n> X<n> F<seq>:<flags|~>:<uid|~> (untagged responses), Q<seq>:<flags>:<uid> (one result of a
-   FETCH 1:* (UID FLAGS) probe), P<n> (the probe returned n results), Z (own .SILENT store done). -/
+   FETCH 1:* (UID FLAGS) probe), P<n> (the probe returned n results), Z / Z<seq>,… (own .SILENT store done:
+   the client drops its flag knowledge for all / for the named positions). -/
 import GluonModel.Driver.Codec
 import GluonModel.Spec.Mirror
 
@@ -18,6 +19,10 @@ def forgetAllFlags (m : Mirror) : Mirror :=
 def traceStep (m : Mirror) (ev : String) : Except String Mirror :=
   if ev.startsWith "RESET" then .ok (Mirror.ofCount (nat! (ev.drop 5).toString))
   else if ev == "Z" then .ok (forgetAllFlags m)
+  else if ev.startsWith "Z" then
+    -- `Z<seq>,<seq>,…`: own .SILENT store on these positions
+    let seqs := (splitNonEmpty (ev.drop 1).toString ",").map nat!
+    .ok { m with msgs := m.msgs.mapIdx fun i e => if seqs.contains (i + 1) then { e with flags := none } else e }
   else if ev.startsWith "P" then
     let n := nat! (ev.drop 1).toString
     if n == m.msgs.length then .ok m
